@@ -240,12 +240,12 @@ def check_validation(ctx):
 def run(ctx):
     model = ctx.model
     c = model.cls("GPO")
-    check_form(ctx, "GPO")
-    check_learner_construction(ctx, "GPO", "R09-FORM")
-    check_create_guard(ctx)
-    RT.check_route(ctx, c, "R09-ROUTE")
-    check_phase_machine(ctx)
-    check_validation(ctx)
+    ctx.attempt("R09-FORM", c.file, "GPO.__init__", "schedule constants", check_form, ctx, "GPO")
+    ctx.attempt("R09-FORM", c.file, "GPO.pull", "learner construction", check_learner_construction, ctx, "GPO", "R09-FORM")
+    ctx.attempt("R09-CREATE", c.file, "GPO.pull", "creation guard", check_create_guard, ctx)
+    ctx.attempt("R09-ROUTE", c.file, "GPO", "routing", RT.check_route, ctx, c, "R09-ROUTE")
+    ctx.attempt("R09-PHASE", c.file, "GPO.receive_reward", "phase machine", check_phase_machine, ctx)
+    ctx.attempt("R09-VALID", c.file, "GPO.pull", "validation", check_validation, ctx)
     from . import c07
     tmp = Ctx(ctx.prop, ctx.tier, ctx.seed, model)
     c07.check_wrappers(tmp)
